@@ -14,7 +14,7 @@ import (
 // Probe kinds: calls whose outcome the model does not predict. They are traced (panic yes/no, resulting state) so
 // that executions under different build configurations can be compared with each other (C20).
 var probeKinds = []string{
-	"q-entity-before-next", "q-get-before-next", "q-entity-after-exhaustion", "q-get-after-exhaustion", "q-next-after-exhaustion", "q-next-twice-after-exhaustion", "q-next-twice-after-close",
+	"q-next-after-exhaustion-other-open", "q-entity-before-next", "q-get-before-next", "q-entity-after-exhaustion", "q-get-after-exhaustion", "q-next-after-exhaustion", "q-next-twice-after-exhaustion", "q-next-twice-after-close",
 	"q-next-after-close", "q-entity-after-close", "q-count-after-close", "q-relation-before-next",
 	"unsafe-get-missing", "unsafe-getrel-missing", "unsafe-has-missing", "map-get-missing", "map-set-missing", "mapn-set-missing", "mapn-getrel-missing",
 	"map-getunchecked-dead", "unsafe-hasunchecked-dead", "unsafe-getunchecked-dead", "unsafe-getrelunchecked-dead", "map-getrelunchecked-dead",
@@ -105,6 +105,19 @@ func (it *Interp) execProbe(b *Backend, op *Op) string {
 		default:
 			return fmt.Sprint(q.GetRelation(0))
 		}
+	case "q-next-after-exhaustion-other-open":
+		// a finished query is advanced again while another query, opened after it finished, holds the recycled lock bit
+		a := b.openQueryOn(it.M, op.F, nil)
+		n := 0
+		for a.Next() {
+			n++
+		}
+		other := b.all.Query()
+		defer other.Close()
+		p1 := try(func() { a.Next() })
+		locked := b.W.IsLocked()
+		p2 := try(func() { a.Close() })
+		return fmt.Sprint(n, " next:", p1 != nil, " locked-while-other-open:", locked, b.W.IsLocked(), " close:", p2 != nil)
 	case "q-next-twice-after-exhaustion", "q-next-twice-after-close":
 		// a caller that recovers from the first rejected Next and tries again
 		q := b.openQueryOn(it.M, op.F, nil)
